@@ -16,6 +16,7 @@
 #include <algorithm>
 #include <atomic>
 #include <chrono>
+#include <ctime>
 #include <csignal>
 #include <cstdint>
 #include <cstdio>
@@ -225,6 +226,13 @@ inline std::size_t& cur_len() { static std::size_t n = 0; return n; }
 inline std::string& cur_path() { static std::string p; return p; }
 inline std::function<void()>& death_hook() { static std::function<void()> f; return f; }
 inline std::atomic<long long>& case_started() { static std::atomic<long long> t{0}; return t; }
+inline std::atomic<long long>& case_started_cpu() { static std::atomic<long long> t{0}; return t; }
+inline long long process_cpu_ms()
+{
+    timespec ts;
+    if (::clock_gettime(CLOCK_PROCESS_CPUTIME_ID, &ts) != 0) return 0;
+    return static_cast<long long>(ts.tv_sec) * 1000 + ts.tv_nsec / 1000000;
+}
 inline void dump_current()
 {
     static bool done = false;
@@ -259,6 +267,7 @@ inline void set_current_case(Case const& c, char const* target = "")
     std::memcpy(detail::cur_buf(), s.data(), n);
     detail::cur_len() = n;
     detail::case_started().store(std::chrono::duration_cast<std::chrono::milliseconds>(std::chrono::steady_clock::now().time_since_epoch()).count());
+    detail::case_started_cpu().store(detail::process_cpu_ms());
     // VERIF_EAGER_DUMP=1: write the case to disk before running it (for crashes that also take the death callback down)
     static const bool eager = std::getenv("VERIF_EAGER_DUMP") != nullptr;
     if (eager && !detail::cur_path().empty())
@@ -268,9 +277,12 @@ inline void set_current_case(Case const& c, char const* target = "")
     }
 }
 
-// Watchdog: a single generated case normally takes micro- to milliseconds. One that is still running after
-// VERIF_CASE_TIMEOUT seconds (default 120) is reported as a non-terminating case: the current case is dumped and the
-// process exits with code 97 (the driver turns that into a violation with the case as replay).
+// Watchdog: a single generated case normally takes micro- to milliseconds. A case that has CONSUMED more than VERIF_CASE_TIMEOUT
+// seconds (default 120) of processor time is reported as non-terminating: the current case is dumped and the process exits with
+// code 97 (the driver turns that into a violation with the case as replay). Processor time, not wall-clock time: on a loaded or
+// memory-starved machine a process can be left unscheduled for minutes, and that must never look like a hang. A case that is still
+// open after 20 minutes of wall-clock time without having used its processor budget ends the process with code 96, which the
+// driver reports as INCONCLUSIVE (time budget), not as a violation.
 inline void start_watchdog()
 {
     static bool started = false;
@@ -284,12 +296,21 @@ inline void start_watchdog()
             std::this_thread::sleep_for(std::chrono::seconds(1));
             long long st = detail::case_started().load();
             if (st == 0) continue;
-            long long now = std::chrono::duration_cast<std::chrono::milliseconds>(std::chrono::steady_clock::now().time_since_epoch()).count();
-            if (now - st > limit_s * 1000)
+            long long cpu0 = detail::case_started_cpu().load();
+            long long cpu = detail::process_cpu_ms();
+            if (detail::case_started().load() != st) continue; // another case began meanwhile
+            if (cpu - cpu0 > limit_s * 1000)
             {
-                std::fprintf(stderr, "WATCHDOG: the current case has been running for more than %ld s\n", limit_s);
+                std::fprintf(stderr, "WATCHDOG: the current case has used more than %ld s of processor time\n", limit_s);
                 detail::dump_current();
                 std::_Exit(97);
+            }
+            long long now = std::chrono::duration_cast<std::chrono::milliseconds>(std::chrono::steady_clock::now().time_since_epoch()).count();
+            if (now - st > 20LL * 60 * 1000)
+            {
+                std::fprintf(stderr, "WATCHDOG: the current case has been open for 20 minutes of wall-clock time but used only %lld ms of processor time: machine stalled, inconclusive\n", cpu - cpu0);
+                detail::dump_current();
+                std::_Exit(96);
             }
         }
     }).detach();
